@@ -138,8 +138,7 @@ pub fn acc9_case(gap: i32) {
                 (Some(c1), Some(c3)) => {
                     let delta = pw.add(c1).sub(c3);
                     let dmag = delta.abs();
-                    let small = dmag.0[2] == 0 && dmag.0[3] == 0 && (dmag.0[1] >> 20) == 0;
-                    vassert!(small, "delta is a rounding error (fits 84 bits at the unit of xl*y)");
+                    // (no separate size claim on delta: the bound below is the claim; delta is about 2^(gap - 2) units)
                     let ok = match (W::at(r.hi, a2, 190), W::at(r.lo, a2, 190)) {
                         (Some(zh), Some(zl)) => dmag.shl(105).le(zh.add(zl).add(delta).abs()),
                         (None, _) => eexp(r.hi) - a2 > 190,
